@@ -5,6 +5,8 @@ import ErrModel.ProtoEnc
 import ErrModel.ProtoPay
 import ErrModel.ProtoFull
 import ErrModel.ProtoHop
+import ErrModel.ProtoNest
+import ErrModel.ProtoHopAll
 /-
   C01 — Error text and cause-tree structure survive network transfer.
 
@@ -192,5 +194,21 @@ theorem C01_hop_through_bytes_partial (P Q : Proc) (vf : Err → Str) (tag : Nat
     (hn : Proto.noNested (encode P vf e) = true) (hs : Proto.SmallF (Proto.full (encode P vf e))) :
     (Proto.throughBytes (encode P vf e)).bind (decode Q [tag]) = hop P Q vf tag e :=
   Proto.hop_through_bytes P Q vf tag e hn hs
+
+
+/-- the COMPLETE message: flat payload messages and nested EncodedError payloads (the masked error of
+    a barrier, a secondary error — at any nesting depth) — is read back as it was written (stream
+    `allbytes`: the model's bytes equal gogo's on every case without a gRPC status payload) -/
+theorem C01_wire_complete (w : Proto.G) (h : Proto.SmallG w) :
+    Proto.desG (Proto.heightG w) (Proto.serG w) = some w :=
+  Proto.desG_serG w (Proto.heightG w) (Nat.le_refl _) h
+
+/-- hence a hop through actual bytes is the hop of the transport model for every error whose
+    payloads are modelled — everything the library builds except gRPC status leaves (finding D13's
+    kind); `oneHid`: a layer carries at most one nested message, as EncodeError produces -/
+theorem C01_hop_through_bytes (P Q : Proc) (vf : Err → Str) (tag : Nat) (e : Err)
+    (hn : Proto.oneHid (encode P vf e) = true) (hs : Proto.SmallG (Proto.fullG (encode P vf e))) :
+    (Proto.throughBytesG (encode P vf e)).bind (decode Q [tag]) = hop P Q vf tag e :=
+  Proto.hop_through_bytes_all P Q vf tag e hn hs
 
 end ErrModel
